@@ -238,6 +238,8 @@ Definition panicked (o : obs) : bool := (o_r1 o =? 9) || (o_r2 o =? 9).
 Definition correlated (req : packet) (o : obs) : bool :=
   match o_resp o with
   | Some r => (mid (hdr r) =? mid (hdr req)) && bytes_eqb (token r) (token req)
+              (* ... and the header announces that token's length (on the wire a stale length nibble cuts the token short) *)
+              && (vtt (hdr r) mod 16 =? len (token req))
   | None => true
   end.
 Definition handled (o : obs) : bool := (o_r1 o =? 1).          (* answered by the handler, application not consulted *)
